@@ -130,8 +130,32 @@ pub fn gen_statuses(r: &mut Rng, n: usize) -> Vec<Status> {
         .collect()
 }
 
+/// A pick made on the Have path: an idle unchoked peer (nothing of it was eligible when it unchoked us, because its
+/// only piece was being fetched elsewhere) announces a common piece after the other fetch was given up.
+fn gen13_have(r: &mut Rng) -> String {
+    let np = 10 + r.below(6) as usize;
+    let j = r.below(np as u64) as usize;
+    let i = (j + 1 + r.below(np as u64 - 1) as usize) % np;
+    let bits = |set: &[usize]| -> String { (0..np).map(|k| if set.contains(&k) { '1' } else { '0' }).collect() };
+    let extra = 1 + r.below(3) as usize;
+    let mut ops = vec![format!("a0;b0:{}", bits(&[j])), format!("a1;b1:{}", bits(&[j]))];
+    for k in 0..extra {
+        ops.push(format!("a{};b{}:{}", 2 + k, 2 + k, bits(&[i])));
+    }
+    ops.push("u0".into());
+    ops.push("u1".into());
+    ops.push(if r.coin() { "c0".to_string() } else { "k0".to_string() });
+    ops.push(format!("h1:{}", i));
+    format!("hist {} {} {}", np, r.next() % 1_000_000, ops.join(";"))
+}
+
 pub fn gen13(r: &mut Rng, n: usize) -> Vec<String> {
     let mut out = vec![];
+    // every pick counts: manager histories judged by C13 (the pick of the Have path included)
+    out.extend(gen12(r, n / 40));
+    for _ in 0..(n / 400).max(3) {
+        out.push(gen13_have(r));
+    }
     for _ in 0..n {
         let np = match r.below(4) {
             0 => 3 + r.below(8) as usize,
